@@ -86,6 +86,8 @@ const CONSTRUCTS: &[(&str, &str, &str, &[&str], &str)] = &[
     ("format-nested", "w := \"q\"", "\\n -> F\"{n}{w}{[n, w]}{w $ w}{n #x}\"", &["10"], "w = \"z\""),
     ("unary-operators", "o := 6", "\\x -> [~5, ~(0), ~x, -(3), -x, ~o, not x, not o]", &["4", "0"], "o = 0"),
     ("unary-fold-big", "o := 1", "\\x -> [~18446744073709551616, -18446744073709551616, ~(-1), -(1/2), -(1.5), x]", &["1"], "o = 2"),
+    ("constant-lists", "o := 1", "\\x -> [[2i, 1], [1, 18446744073709551616, 1.5, 2i], [-2i, -(2i), -1.5, -18446744073709551616], x * (-2i), x * -(2i), [[1, [2i]], [\"s\", 'c']], [null, 0], o]", &["1", "2i"], "o = 2"),
+    ("constant-dicts-and-nested", "o := 1", "\\x -> [{1: 2i, \"k\": [1.5, -3]}, [{}], [[-1, -2.5], [-(1), -(2.5)]], o + x]", &["1"], "o = 2"),
     ("index-slice", "xs := [10, 20, 30, 40]; k := 1", "\\i -> [xs[i], xs[k], xs[i:], xs[:k], xs[k:i], xs[-1], xs[k:][0:1]]", &["2", "3"], "xs = [0]; k = 0"),
     ("update-expression", "xs := [1, 2, 3]; k := 0", "\\v -> [xs{k = v}, xs{-1 = v}, xs]", &["9"], "xs = [7, 7, 7]; k = 2"),
     ("chain-outer-operator", "op := +", "\\a, b -> [a op b, a op b op a, (op)(a, b)]", &["2, 3"], "op = *"),
